@@ -339,7 +339,7 @@ pub fn trace(sc: &Scenario) {
             println!("  ENGINE ERROR: {}", e);
         }
         let mut probes = Probes::new();
-        let ctx = crate::oracle::OracleCtx { cfg: &sc.cfg, defs: &sc.defs, nondeterministic_outputs: false, tainted: None };
+        let ctx = crate::oracle::OracleCtx { cfg: &sc.cfg, defs: &sc.defs, nondeterministic_outputs: false, tainted: None, truth: None };
         let mut vio = out.violations.clone();
         vio.extend(crate::oracle::check_eval(&ctx, &out, &r.plan, &mut probes));
         for v in vio {
